@@ -199,8 +199,12 @@ def make_reg_server(store, server_md, jwks_ok_holder):
         def get_client_id(self):
             return self.cid
 
+        client_secret = property(lambda self: store.reg[self.cid]["client_secret"])
+
         def check_client_secret(self, s):
-            return s == store.reg[self.cid]["client_secret"]
+            # compared the way the repository's own client mixin compares it
+            from authlib.integrations.sqla_oauth2 import OAuth2ClientMixin
+            return OAuth2ClientMixin.check_client_secret(self, s)
 
     class Conf(ClientConfigurationEndpoint):
         def authenticate_token(self, request):
@@ -284,6 +288,41 @@ def outcome(resp, store):
     return ["refused", status, body.get("error") if isinstance(body, dict) else None]
 
 
+SECRET_LOOKALIKES = ["sec1", "wrong", "", "sec1\ud800", "\udc00sec1", "sec1 ", " sec1", "sec1\x00", "SEC1", "sec", "sec11", "s\u00e9c1", "sec1\udbff\udbff"]
+
+
+def run_update_secrets(ctx):
+    """An otherwise valid RFC 7592 update whose client_secret is the issued secret or a look-alike of it: only the identical
+    string lets the update through (text that only a JSON escape can carry included)."""
+    from impl import oauth2_server as S
+    from impl import transports as T
+    m = ctx.model
+    for secret in SECRET_LOOKALIKES:
+        for transport in T.TRANSPORTS:
+            store, live_md = S.Store(), {}
+            srv = make_reg_server(store, live_md, None)
+            store.saved = []
+            store.reg = {"cid1": {"client_secret": "sec1", "metadata": {"client_name": "old"}}}
+            payload = {"client_id": "cid1", "client_secret": secret, "client_name": "new", "redirect_uris": ["https://c.example/x"]}
+            srv.transport = transport
+            try:
+                resp = srv.create_endpoint_response("client_configuration", S.HReq("PUT", "https://as.example/register/cid1", None,
+                                                                                   {"Authorization": "Bearer reg-token-cid1"}, json.dumps(payload)))
+                got = outcome(resp, store)
+            except Exception as e:  # noqa
+                got = ["escapes", type(e).__name__]
+            mod = m.call("update", {"token_valid": True, "client_exists": True, "permitted": True, "client_id": "cid1", "client_secret": "sec1", "server": {},
+                                    "jwks_ok": True, "payload": payload})
+            case = {"mode": "update", "update_secret": secret, "transport": transport, "payload": payload}
+            ctx.case(case, ("update-secret", secret, transport), "update-secret:%s" % got[0])
+            ctx.compare("update", case, got, mod)
+            if got[0] == "escapes":
+                ctx.violation("C18:update:escapes:%s" % got[1], "client configuration endpoint raised an unhandled exception", case)
+            elif (got[0] == "stored") != (secret == "sec1"):
+                ctx.violation("C18:update:secret-%s" % ("lookalike-accepted" if got[0] == "stored" else "refused"),
+                              "an update naming %s client secret was %s" % ("a look-alike of the issued" if secret != "sec1" else "the issued", "stored" if got[0] == "stored" else "refused"), case)
+
+
 def run_registration(ctx):
     from impl import oauth2_server as S
     m = ctx.model
@@ -351,7 +390,8 @@ def run_registration(ctx):
             if r < 0.3:
                 payload["client_secret"] = "sec1"
             elif r < 0.45:
-                payload["client_secret"] = rng.choice(["wrong", ""])
+                # a secret that is not the issued one, look-alikes of the issued one included (text that only a JSON escape can carry, too)
+                payload["client_secret"] = rng.choice(["wrong", "", "sec1\ud800", "\udc00sec1", "sec1 ", "sec1\x00", "SEC1", "sec", "sec11", "s\u00e9c1"])
             if rng.random() < 0.12:
                 payload[rng.choice(["registration_access_token", "registration_client_uri", "client_secret_expires_at", "client_id_issued_at"])] = rng.choice(["x", 0, None])
             hdr = {"Authorization": ("Bearer reg-token-" + (target if perm else "someone-else")) if tok else "Bearer nope"}
@@ -449,6 +489,7 @@ def run(ctx):
     run_urls(ctx)
     run_metadata(ctx)
     run_registration(ctx)
+    run_update_secrets(ctx)
 
 
 def run_case(ctx, case):
